@@ -1,10 +1,46 @@
 # C07 - queues own their elements: each value is moved out or destroyed exactly once
 from xvlib import *
 from props.queue_common import *
+import json
 
 # pushes and pops, then the queue is destroyed with what is left inside (+keep)
 PROGS = [';push1,push2,push3;pop', 'push1,push2;push3,pop;push4', ';push1,push2;push3,push4', 'push1;pop,push2,push3;pop,push4,push5',
          'push1,push2,push3;pop,pop;push4', ';push1,push2,push3,push4,push5;pop,pop']
+
+
+BY_VALUE = {'bkf': 'kirsch_bounded_kfifo_queue::try_push', 'nkb': 'nikolaev_bounded_queue::try_push'}
+
+
+def rejected_by_value(ctx, xs):
+    """"a value rejected by a failed try_push is left with the caller": queues whose try_push takes value_type BY VALUE destroy a rejected owning element
+       with the parameter.  The drivers record that as `lostbv` (the monitor accepts the record, everything else about the execution is still validated);
+       here every such record is attributed to its call site.  A call site listed in known-findings.json (status known, property C07) is a KNOWN-FINDING,
+       any other one is a violation."""
+    seen = {}
+    for x in xs:
+        sched = read_sched(x['trace'])
+        num = None
+        for l in open(x['trace']):
+            if l.startswith('{"e":"reset"'):
+                num = json.loads(l)['a']
+            elif '"op":"lostbv"' in l and num is not None:
+                prog = sched.get(num, ('?',))[0]
+                site = next((fn for pre, fn in BY_VALUE.items() if prog.startswith(pre)), 'unlisted: ' + prog.split(';')[0])
+                seen.setdefault(site, (x, num, prog))
+    for site, (x, num, prog) in sorted(seen.items()):
+        kf = next((k for k in ctx.known if k['property'] == 'C07' and k['status'] == 'known' and k.get('site') == site), None)
+        if kf:
+            txt = '%s: %s' % (kf['id'], kf['title'])
+            if txt not in ctx.known_hits:
+                ctx.known_hits.append(txt)
+        else:
+            diag = {'sched': sched_of(x, num), 'record': 'lostbv', 'lines': []}
+            p = write_replay(ctx, x['name'], x['driver'], 'Queue_Hist', {}, diag, num, '')
+            ctx.violations.append({'what': 'a rejected try_push consumed the caller\'s value (%s, program %s)' % (site, prog), 'replay': p})
+
+
+def sched_of(x, num):
+    return read_sched(x['trace']).get(num)
 
 
 def run(ctx):
@@ -29,9 +65,10 @@ def run(ctx):
         fill = ','.join('push%d' % i for i in range(1, cap + 1))
         jobs.append('%s+keep;%s;pop;push%d' % (c, fill, cap + 1))
         jobs.append('%s;%s;pop,pop;push%d,push%d' % (c, fill, cap + 1, cap + 2))
-    run_queues(ctx, jobs, pb=2 if q else 3, max_exec=200 if q else 15000)
+    xs = run_queues(ctx, jobs, pb=2 if q else 3, max_exec=200 if q else 15000)
     if not q:
-        run_queues(ctx, jobs, pb=5, max_exec=0, mode='random', runs=600, tagx='r')
+        xs += run_queues(ctx, jobs, pb=5, max_exec=0, mode='random', runs=600, tagx='r')
+    rejected_by_value(ctx, xs)
     for r in ctx.tv[:3]:
         ctx.samples.append({'driver': r['driver'], 'history': canonical_sample(execution_lines(r['trace'], 2), 60)})
     return finish(ctx,
@@ -41,4 +78,4 @@ def run(ctx):
                   '(each accepted value popped once or destroyed once with the queue, rejected values stay with the caller, nothing leaks); heap quarantine '
                   'reports double frees; M: queue impl specs with destructor index ranges',
                   ['sequential consistency at atomic-access granularity',
-                   'for try_push taking its argument by value a rejected move-only value is destroyed with the parameter (once); "left with the caller" is checked where the API forwards (vyukov)'])
+                   'for try_push taking its argument by value (kirsch_bounded_kfifo_queue, nikolaev_bounded_queue) a rejected owning value is destroyed with the parameter: recorded per call site as known finding C07-try-push-by-value-*; "left with the caller" holds where the API forwards (vyukov_bounded_queue)'])
